@@ -122,6 +122,15 @@ def keys_seq(container, sorted_: bool, wrap_elem=None):
     q.key_array = arr
     q.container = container
     q.sorted = sorted_
+
+    def distinct(a, b):
+        """Instance of: an enumeration of a key set yields every key once (two different positions in range hold
+        different keys)."""
+        a, b = I(a), I(b)
+        inr = tm.And(tm.Le(tm.mk_int(0), a), tm.Lt(a, cnt), tm.Le(tm.mk_int(0), b), tm.Lt(b, cnt), tm.Ne(a, b))
+        return tm.Implies(inr, tm.Ne(tm.Select(arr, a, ks), tm.Select(arr, b, ks)))
+
+    q.distinct = distinct
     return q
 
 
@@ -1206,15 +1215,47 @@ def v_bytes(x=b"", *a):
     return builtins.bytes(x, *a)
 
 
+def _extreme(coll, is_min):
+    """min / max of a symbolic collection of integers: some element (witness position) that bounds every element;
+    ValueError on an empty collection."""
+    if isinstance(coll, SymValues):
+        # the ascending enumeration of the keys (a function of the key set): contracts can name a key's position
+        mp = coll.m
+        q = keys_seq(mp, True, wrap_elem=lambda k: mp.value_at(k))
+    elif isinstance(coll, (SymMap, SymSet, SymKeys)):
+        q = keys_seq(coll.m if isinstance(coll, SymKeys) else coll, True)
+    else:
+        q = as_symseq(coll)
+    if q is None:
+        raise Unsupported("min / max of this symbolic collection")
+    c = cur()
+    if c.fork(tm.Le(q.length, tm.mk_int(0))):
+        raise ValueError(("min" if is_min else "max") + "() arg is an empty sequence")
+    w = c.fresh(c.fresh_name("extreme.witness"), INT)
+    c.pc.append(tm.And(tm.Le(tm.mk_int(0), w), tm.Lt(w, q.length)))
+    m = q.elem(w)
+    if not isinstance(m, (SymInt, int)) or isinstance(m, bool):
+        raise Unsupported("min / max over non-integer elements")
+    jv = tm.Var(c.fresh_name("j!bound"), INT)
+    mt = I(m)
+    c.pc.append(quantified([(jv.s, INT)], lambda: (tm.Le(mt, I(q.elem(jv))) if is_min else tm.Ge(mt, I(q.elem(jv)))),
+                           guard=tm.And(tm.Le(tm.mk_int(0), jv), tm.Lt(jv, q.length))))
+    return wrap_int(mt)
+
+
 def v_min(*args, **kw):
     if builtins.len(args) == 2 and not kw and any(isinstance(a, SymInt) for a in args):
         return wrap_int(tm.Min(I(args[0]), I(args[1])))
+    if builtins.len(args) == 1 and not kw and isinstance(sym.resolve(args[0]), (SymSeq, SymMap, SymSet, SymKeys, SymValues)):
+        return _extreme(sym.resolve(args[0]), True)
     return builtins.min(*args, **kw)
 
 
 def v_max(*args, **kw):
     if builtins.len(args) == 2 and not kw and any(isinstance(a, (SymInt, SymEnum)) for a in args):
         return wrap_int(tm.Max(I(args[0]), I(args[1])))
+    if builtins.len(args) == 1 and not kw and isinstance(sym.resolve(args[0]), (SymSeq, SymMap, SymSet, SymKeys, SymValues)):
+        return _extreme(sym.resolve(args[0]), False)
     return builtins.max(*args, **kw)
 
 
@@ -1305,12 +1346,20 @@ def v_list(*a):
     a = tuple(sym.resolve(x) for x in a)
     if a and isinstance(a[0], SymSeq):
         return a[0]
-    if a and is_symbolic(a[0]):
+    if a and (is_symbolic(a[0]) or isinstance(a[0], (SymItems, SymKeys, SymValues))):
         q = as_symseq(a[0])
         if q is not None:
             return q
         raise Unsupported("list() of a symbolic value")
     return builtins.list(*a)
+
+
+def v_tuple(*a):
+    """tuple(x): a snapshot of a symbolic collection is the same immutable sequence that list(x) gives."""
+    a = tuple(sym.resolve(x) for x in a)
+    if a and (isinstance(a[0], SymSeq) or is_symbolic(a[0]) or isinstance(a[0], (SymItems, SymKeys, SymValues))):
+        return v_list(*a)
+    return builtins.tuple(*a)
 
 
 def v_print(*a, **k):
@@ -1386,12 +1435,12 @@ class _NoLog:
 BUILTIN_OVERRIDES = dict(
     len=v_len, sorted=v_sorted, isinstance=v_isinstance, int=v_int, bool=v_bool, str=v_str,
     bytes=v_bytes, min=v_min, max=v_max, any=v_any, all=v_all, dict=v_dict, set=v_set, list=v_list,
-    print=v_print, getattr=v_getattr, issubclass=v_issubclass, sum=v_sum,
+    print=v_print, getattr=v_getattr, issubclass=v_issubclass, sum=v_sum, tuple=v_tuple,
 )
 v_type.__vc_real__ = type
 BUILTIN_OVERRIDES["type"] = v_type
 for _k, _real in (("int", int), ("bool", bool), ("str", str), ("bytes", bytes), ("dict", dict),
-                  ("set", set), ("list", list)):
+                  ("set", set), ("list", list), ("tuple", tuple)):
     BUILTIN_OVERRIDES[_k].__vc_real__ = _real
 
 
